@@ -160,7 +160,8 @@ def stepTop (cfg : NCfg) (t n : Nat) (fr : Frame) (r : NRState) : Outcome :=
       if cfg.cacheOnly fr.obj then .pop .ret none r   -- KeyError("Contraction missing from cache.")
       else
         -- `_run_optimizer`: `opt = self._get_suboptimizer()`
-        .cont .alloc { fr with pc := .searching missing n HState.init fr.trials }
+        .cont (if cfg.registerFirst then .store else .alloc)
+          { fr with pc := .searching missing n HState.init fr.trials }
           (if cfg.registerFirst then
             { r with subopts := updFn r.subopts t (some (n, HState.init)) } else r) (n + 1)
     else
@@ -186,7 +187,7 @@ def stepTop (cfg : NCfg) (t n : Nat) (fr : Frame) (r : NRState) : Outcome :=
         | some _ => .cont .search { fr with pc := .ran missing id opt } r n
   | .ran missing id opt =>
     -- `self._suboptimizers[thrid] = opt`; `_deconstruct_tree(opt, tree)`
-    .cont .store
+    .cont (if cfg.registerFirst then .silent else .store)
       { fr with pc := .stored missing { score := opt.curBest, origin := opt.tree.getD fr.q.net } }
       (if cfg.registerFirst then r else { r with subopts := updFn r.subopts t (some (id, opt)) }) n
   | .stored missing con =>
